@@ -162,6 +162,7 @@ def run(db, rep, tier):
                                "on the same wire bits", 60)
     rep.rule("R4-serialiser-stores", "serialising assigns only the tabled derived fields (lengths, checksums, next-protocol tags ...): "
                                      "every other field keeps the value that was set", 25)
+    rep.rule("R8-derived-always", "length, header-length and checksum fields are (re)derived on every path through their serialiser", 15)
     rep.rule("R6-address-order", "IPv4/IPv6/hardware address setters store the octets in the order the address object holds them (network "
                                  "order): no byte swap between the address and the header", 10)
     rep.rule("R7-selector-accessors", "set_X(selector, v) / get_X(selector): for every enumerator the getter returns the value set, the other "
@@ -473,6 +474,16 @@ DERIVED_FIELDS = {
 }
 
 
+MUST_DERIVE = {
+    # lengths, checksums and header-length fields that every serialisation recomputes whatever the packet's content
+    ("Tins::Dot3", "header_.length"), ("Tins::EAPOL", "header_.length"), ("Tins::ICMP", "header_.check"),
+    ("Tins::ICMPv6", "header_.cksum"), ("Tins::IP", "header_.check"), ("Tins::IP", "header_.ihl"), ("Tins::IP", "header_.tot_len"),
+    ("Tins::IPSecAH", "header_.length"), ("Tins::IPv6", "header_.next_header"), ("Tins::IPv6", "header_.payload_length"),
+    ("Tins::RadioTap", "header_.it_len"), ("Tins::TCP", "header_.check"), ("Tins::TCP", "header_.doff"),
+    ("Tins::UDP", "header_.check"), ("Tins::UDP", "header_.len"),
+}
+
+
 def serialiser_stores(db, rep):
     from rules import c02, c05
     from vlib.facts import strip
@@ -529,6 +540,41 @@ def serialiser_stores(db, rep):
                               "the API - or parsed from the wire - is lost by serialize()" % (w["rec"].split("::")[-1], fld, f["qual"].split("::")[-1]))
     if n_ser < 50:
         rep.analysis_broken("only %d serialisers enumerated" % n_ser)
+    # the other direction for lengths and checksums: they are (re)derived on EVERY path through the serialiser
+    from vlib import cfg as _cfg
+    nm = 0
+    for (rec, fld) in sorted(MUST_DERIVE):
+        for K in c02.concrete_classes(db):
+            if K != rec and rec not in db.all_bases(K):
+                continue
+            w = c02.final(db, K, "write_serialization", "(unsigned char *, unsigned int)")
+            if w is None:
+                continue
+            g = _cfg.FnCFG(w)
+            pos = []
+            for n in facts.fn_nodes(w):
+                ms = c05.member_store(w, n)
+                if ms and facts.expr_str(ms[2]).replace("this->", "") == fld:
+                    pos.append(g.pos(n))
+                if n["k"] == "CXXMemberCallExpr" and c05.strip_this(n):
+                    fs = db.functions.get(n.get("callee"))
+                    if fs is not None and fs.get("body"):
+                        for x in facts.fn_nodes(fs):
+                            m2 = c05.member_store(fs, x)
+                            if m2 and facts.expr_str(m2[2]).replace("this->", "") == fld:
+                                pos.append(g.pos(n))
+            pos = [p for p in pos if p]
+            okey = "%s:%s" % (K.split("::")[-1], fld)
+            nm += 1
+            if pos and g.reaches_exit_avoiding((g.entry, -1), pos, normal_only=True) is None:
+                rep.ok("R8-derived-always", okey, facts.loc(w), "stored on every path through write_serialization")
+            else:
+                rep.violation("R8-derived-always", okey, facts.loc(w),
+                              "`%s` (%s) is not stored on every path through %s::write_serialization: on some path the serialization carries "
+                              "whatever the field held before" % (fld, DERIVED_FIELDS[(rec, fld)], K.split("::")[-1]))
+            break
+    if nm < 15:
+        rep.analysis_broken("only %d must-derive fields checked" % nm)
 
 
 BE_TU = """#include <endian.h>
